@@ -330,6 +330,8 @@ func (comp *Compiler) createRangeBdry(node parse.Node,
 	for _, parsedRangeBdry := range parsed_rbs {
 		if parsedRangeBdry.Min {
 			start = base_min
+		} else if parsedRangeBdry.StartMax {
+			start = base_max
 		} else {
 			start, err = rangeBdrySlice.Parse(parsedRangeBdry.Start, 0, 64)
 			if err != nil {
@@ -340,7 +342,9 @@ func (comp *Compiler) createRangeBdry(node parse.Node,
 					"derived type range must be restrictive"))
 			}
 		}
-		if parsedRangeBdry.Max {
+		if parsedRangeBdry.EndMin {
+			end = base_min
+		} else if parsedRangeBdry.Max {
 			end = base_max
 		} else {
 			end, err = rangeBdrySlice.Parse(parsedRangeBdry.End, 0, 64)
@@ -2294,6 +2298,8 @@ func (c *Compiler) getLength(base schema.String, n parse.Node) *schema.Length {
 	for _, p := range plbs {
 		if p.Min {
 			lb.Start = imin
+		} else if p.StartMax {
+			lb.Start = imax
 		} else {
 			lb.Start = p.Start
 			if p.Start < imin {
@@ -2301,7 +2307,9 @@ func (c *Compiler) getLength(base schema.String, n parse.Node) *schema.Length {
 					"derived type length must be restrictive"))
 			}
 		}
-		if p.Max {
+		if p.EndMin {
+			lb.End = imin
+		} else if p.Max {
 			lb.End = imax
 		} else {
 			lb.End = p.End
